@@ -45,7 +45,7 @@ def run(ID, PROP, spec, R, gen, nontrivial, per_case=None):
             R.case(f'{fp}{si}'[-16:], bool(nontrivial(s, case)))
         if per_case:
             per_case(E, case, sums)
-        if i % 16 == 0 and R.out_of_time():
+        if (i % 16 == 0 or spec.get('valgrind')) and R.out_of_time():
             R.extra['cut_short'] = 1
             break
 
